@@ -124,7 +124,7 @@ func (s *LocalBackend) Metrics() []prometheus.Collector {
 }
 
 func compareFile(f *os.File, data []byte) error {
-	b := make([]byte, min(len(data), 16384))
+	b := make([]byte, max(1, min(len(data), 16384)))
 	for {
 		n, err := f.Read(b)
 		if err != nil && err != io.EOF {
